@@ -10,7 +10,7 @@ class Prop:
     quick_runs = 100000
     thorough_runs = 2000000
     rule = ("seeded operator pipelines (depth 1-4 over 1-4 cold/hot/sync sources, %d catalogue rows) with non-conforming sources "
-            "(events after the terminal, double terminals), rogue sources that ignore their disposal, InjectedFault at the k-th call of "
+            "(events after the terminal, double terminals), rogue sources that ignore their disposal, sources that call their observer from inside the disposal of their subscription, InjectedFault at the k-th call of "
             "operator callbacks and of the subscriber's own callbacks, and re-entrant dispose; every recorder (root, windows, groups) "
             "must see on_next* (on_error|on_completed)? and nothing afterwards. Distinct = (operators, root notification kinds, faults fired); "
             "non-trivial = at least one notification and at least one of: fault fired, non-conforming or rogue source.") % len(catalog.ROWS)
@@ -24,12 +24,16 @@ class Prop:
         for s in sc["sources"]:
             if s["kind"] == "cold" and rng.random() < 0.25 and not (expanding and s["id"].startswith("p")):
                 s["kind"] = "syncthen"  # first event synchronously inside subscribe(), uncaught; the rest later
+            if rng.random() < 0.12:
+                s["on_dispose"] = rng.choice(["N", "C", "E"])  # calls its observer from inside the disposal of its subscription
         sites = catalog.sites_of(sc["program"])
         faults = []
         if sites and rng.random() < 0.5:
             for _ in range(rng.choice([1, 1, 2])):
                 faults.append({"site": rng.choice(sites), "k": rng.randrange(0, 4)})
         sc["faults"] = faults
+        if faults and rng.random() < 0.3:
+            sc["exc"] = rng.choice(["stop_iteration", "key_error", "value_error", "type_error", "attribute_error", "index_error", "runtime_error"])
         if rng.random() < (0.5 if depth == 0 else 0.2) and not expanding:  # a raising subscriber keeps take() from ending an expansion
             sc["sub_raise"] = rng.randrange(0, 4)
         r = rng.random()
@@ -52,6 +56,7 @@ class Prop:
         out.faults["callback_raise"] += len([f for f in w.fired if not f[1].startswith("subscriber:")])
         out.faults["subscriber_raise"] += len([f for f in w.fired if f[1].startswith("subscriber:")])
         out.faults["rogue_source"] += sum(1 for s in sc["sources"] if s.get("rogue"))
+        out.faults["emit_on_dispose"] += len([f for f in w.fired if f[1].endswith(":emits_on_dispose")])
         out.faults["nonconforming_source"] += sum(1 for s in sc["sources"] if _nonconforming(s))
         if rec.disp_ret_seq is not None:
             out.faults["dispose"] += 1
